@@ -442,7 +442,14 @@ func (r *renderState) filterRaw(rawHTML []byte) {
 					i += len("<!")
 				default:
 					tagNameStart := i + 1
-					tagEnd := tagNameStart + htmlTagEnd(rawHTML[tagNameStart:])
+					isEndTag := tagNameStart < len(rawHTML) && rawHTML[tagNameStart] == '/'
+					// The name of an end tag starts after its slash:
+					// scanning from the slash would take the name for an attribute name.
+					scanStart := tagNameStart
+					if isEndTag {
+						scanStart++
+					}
+					tagEnd := scanStart + htmlTagEnd(rawHTML[scanStart:])
 					tagNameEnd := tagNameStart + htmlTagNameEnd(rawHTML[tagNameStart:tagEnd])
 					tagName := maybeLower(rawHTML[tagNameStart:tagNameEnd], &r.lowerBuf)
 					escaped := r.FilterTag(tagName)
@@ -451,7 +458,6 @@ func (r *renderState) filterRaw(rawHTML []byte) {
 						r.dst = append(r.dst, "&lt;"...)
 						copyStart = tagNameStart
 					}
-					isEndTag := tagNameStart < len(rawHTML) && rawHTML[tagNameStart] == '/'
 					if escaped || (tagNameEnd == tagNameStart && !isEndTag) {
 						// An escaped '<' no longer opens a tag
 						// and a '<' that is followed by neither a tag name nor a slash never did:
